@@ -295,11 +295,18 @@ def rollTo (target : Nat) : Nat → Ctx → Nat → Nat → R Out
             | _ => .ok .err c
     | _, _ => .ok .err c
 
-/-- start-up reconciliation of one store (after the repair: trim first).
-`none` = the constructor fails. -/
+/-- has the index recorded a tip for this store yet (`hasChainTip`) -/
+def Db.hasTip (db : Db) : Which → Bool
+  | .B => db.btip.isSome
+  | .F => db.ftip.isSome
+
+/-- start-up reconciliation of one store (after the repairs: trim first, then
+start an interrupted first initialisation over).  `none` = the constructor fails. -/
 def openStore (w : Which) (d : Durable) : Option Durable :=
   let f := d.file w
   let f := { f with junk := 0 }                       -- trimPartialHeader
+  -- resetInterruptedInit: nothing but the initial entry in the file and no tip in the index
+  let f := if f.ents.length = 1 ∧ d.db.hasTip w = false then { f with ents := [] } else f
   let d := d.setFile w f
   if f.corrupt then none else
   match f.ents.getLast? with
